@@ -33,6 +33,11 @@ if TYPE_CHECKING:
     FilterT = Callable[..., Any]
 
 
+# Exceptions Babel, pytz and the standard library raise when given a value, format or
+# unit they can't handle.
+_FORMAT_ERRORS = (ArithmeticError, AttributeError, KeyError, OSError, ValueError)
+
+
 def _resolve_locale(
     context: RenderContext,
     locale_var: str,
@@ -142,14 +147,17 @@ class Currency:
                 f"expected a string argument, found {currency_code}", token=None
             )
 
-        return numbers.format_currency(
-            _parse_decimal(left, input_locale),
-            currency_code,
-            format=_format,
-            locale=locale,
-            group_separator=group_separator,
-            currency_digits=self.currency_digits,
-        )
+        try:
+            return numbers.format_currency(
+                _parse_decimal(left, input_locale),
+                currency_code,
+                format=_format,
+                locale=locale,
+                group_separator=group_separator,
+                currency_digits=self.currency_digits,
+            )
+        except _FORMAT_ERRORS as err:
+            raise LiquidValueError(f"currency: {err}", token=None) from err
 
 
 def _parse_decimal(val: object, locale: Union[str, Locale]) -> Decimal:
@@ -258,12 +266,15 @@ class DateTime:
             default=self.default_input_timezone,
         )
 
-        return dates.format_datetime(
-            _parse_datetime(left, input_tzinfo),
-            format=_format,
-            locale=locale,
-            tzinfo=tzinfo,
-        )
+        try:
+            return dates.format_datetime(
+                _parse_datetime(left, input_tzinfo),
+                format=_format,
+                locale=locale,
+                tzinfo=tzinfo,
+            )
+        except _FORMAT_ERRORS as err:
+            raise LiquidValueError(f"datetime: {err}", token=None) from err
 
     def _resolve_timezone(
         self,
@@ -415,13 +426,16 @@ class Number:
                 f"expected a string argument, found {_format}", token=None
             )
 
-        return numbers.format_decimal(  # type: ignore
-            _parse_decimal(left, input_locale),
-            format=_format,
-            locale=locale,
-            group_separator=group_separator,
-            decimal_quantization=decimal_quantization,
-        )
+        try:
+            return numbers.format_decimal(  # type: ignore
+                _parse_decimal(left, input_locale),
+                format=_format,
+                locale=locale,
+                group_separator=group_separator,
+                decimal_quantization=decimal_quantization,
+            )
+        except _FORMAT_ERRORS as err:
+            raise LiquidValueError(f"decimal: {err}", token=None) from err
 
 
 def unit_filter(_filter: FilterT) -> FilterT:
@@ -533,20 +547,26 @@ class Unit:
                 if denominator is not None
                 else 1
             )
-            return units.format_compound_unit(
+            try:
+                return units.format_compound_unit(
+                    _parse_decimal(left, input_locale),
+                    numerator_unit=measurement_unit,
+                    denominator_value=_denominator,  # type: ignore
+                    denominator_unit=denominator_unit,
+                    length=_length,  # type: ignore
+                    format=_format,
+                    locale=locale,
+                )
+            except _FORMAT_ERRORS as err:
+                raise LiquidValueError(f"unit: {err}", token=None) from err
+
+        try:
+            return units.format_unit(
                 _parse_decimal(left, input_locale),
-                numerator_unit=measurement_unit,
-                denominator_value=_denominator,  # type: ignore
-                denominator_unit=denominator_unit,
+                measurement_unit=measurement_unit,
                 length=_length,  # type: ignore
                 format=_format,
                 locale=locale,
             )
-
-        return units.format_unit(
-            _parse_decimal(left, input_locale),
-            measurement_unit=measurement_unit,
-            length=_length,  # type: ignore
-            format=_format,
-            locale=locale,
-        )
+        except _FORMAT_ERRORS as err:
+            raise LiquidValueError(f"unit: {err}", token=None) from err
